@@ -89,6 +89,19 @@ ne_response_handler(coap_session_t *session, const coap_pdu_t *sent, const coap_
   if (ne_resp_tkl <= 8 && ne_resp_tkl > 0) memcpy(ne_resp_token, received->actual_token.s, ne_resp_tkl);
   return ne_resp_verdict;
 }
+static int ne_pong_count, ne_ping_count;
+static void
+ne_pong_handler(coap_session_t *session, const coap_pdu_t *received, const coap_mid_t mid) {
+  (void)session; (void)received; (void)mid;
+  NE_CALLBACK_ENTRY("pong handler");
+  ne_pong_count++;
+}
+static void
+ne_ping_handler(coap_session_t *session, const coap_pdu_t *received, const coap_mid_t mid) {
+  (void)session; (void)received; (void)mid;
+  NE_CALLBACK_ENTRY("ping handler");
+  ne_ping_count++;
+}
 static int
 ne_event_handler(coap_session_t *session, const coap_event_t event) {
   (void)session; (void)event;
@@ -134,6 +147,9 @@ ne_init(void) {
   ne_ctx.nack_handler = ne_nack_handler;
   ne_ctx.response_handler = ne_response_handler;
   ne_ctx.handle_event = ne_event_handler;
+  ne_ctx.pong_handler = ne_pong_handler;
+  ne_ctx.ping_handler = ne_ping_handler;
+  ne_pong_count = ne_ping_count = 0;
   ne_ctx.max_token_size = 8;          /* as coap_new_context() sets it (COAP_TOKEN_DEFAULT_MAX) */
   ne_init_session(&ne_sess, COAP_PROTO_UDP);
   ne_init_session(&ne_sess2, COAP_PROTO_UDP);
